@@ -1,0 +1,13 @@
+//go:build verif
+
+// Contracts for the deductive verifier in /verif (comment-only file; see /verif/DESIGN.md).
+package saslauthenticate
+
+//@ property C18
+
+// Raw versus framed authentication bytes (KIP-152): after a SaslHandshake v0 the authentication bytes are exchanged as bare
+// length-prefixed frames; after a SaslHandshake v1 they travel inside SaslAuthenticate requests. The choice depends on the
+// negotiated SaslHandshake version only.
+//@ func (*Request).Required
+//@   modifies nothing
+//@   ensures result == (versions[protocol.SaslHandshake] == 0)
